@@ -374,7 +374,8 @@ class Contract:
         a = self.bind(it, fi, self_val, ca)
         pre = st.snapshot()
         for n, f in self.requires(it, pre, a):
-            st.oblige(f'{caller}#call:{self.name}.pre[{n}]', f, callee=self.name)
+            if not n.startswith('assumed:'):      # named history assumptions are carried, not checked
+                st.oblige(f'{caller}#call:{self.name}.pre[{n}]', f, callee=self.name)
             st.assume(as_z3(f))
         pre_call = pre
         if self.yields:
